@@ -1,7 +1,626 @@
-//! C12 — not built yet.
+//! C12 — parse trees carry consistent positions and structure.
+//!  * direct structural checks on every parse tree: leaf slices contiguous, leaf text = slice,
+//!    node span = hull of children, line/col = computed from the text, brackets match,
+//!    non-file nodes start and end with code, indent/dedent balance on fully parsed files;
+//!  * after fixes (every tree the fix loop rebuilds, via `verif_hook::FixEvent`): working
+//!    line/col of every leaf equals the value computed from the rewritten text;
+//!  * correspondence cases for the Gallina kernels: `infer_next_position`,
+//!    `get_line_pos_of_char_pos`, `from_child_markers`, `position_segments` (recorded at its real
+//!    call sites during fixing, and called on perturbed real trees), meta positions of `apply`.
+use std::cell::RefCell;
+use std::rc::Rc;
+
+use serde_json::{Value, json};
+use sqruff_lib::core::config::FluffConfig;
+use sqruff_lib::core::linter::core::{Linter, verif_hook as fix_hook};
+use sqruff_lib_core::dialects::syntax::SyntaxKind;
+use sqruff_lib_core::parser::markers::PositionMarker;
+use sqruff_lib_core::parser::segments::base::{ErasedSegment, SegmentBuilder, Tables, position_segments, verif_hook as pos_hook};
+use sqruff_lib_core::templaters::base::TemplatedFile;
+
+use crate::c02;
 use crate::common::*;
 
-pub fn main(_args: &Args) {
-    eprintln!("c12: not built yet");
-    std::process::exit(2);
+// ---------------------------------------------------------------- helpers
+/// (line, col) of byte offset `p` of `text`, computed from the text (1-based, bytes).
+fn linecol(text: &str, p: usize) -> (usize, usize) {
+    let b = &text.as_bytes()[..p.min(text.len())];
+    let mut line = 1;
+    let mut col = 1;
+    for &c in b {
+        if c == b'\n' {
+            line += 1;
+            col = 1;
+        } else {
+            col += 1;
+        }
+    }
+    (line, col)
+}
+fn nl_offsets(text: &str) -> Vec<usize> {
+    text.match_indices('\n').map(|(i, _)| i).collect()
+}
+fn g_marker(m: &PositionMarker) -> String {
+    format!("(mkM {} {} {} {} {} {})", m.source_slice.start, m.source_slice.end, m.templated_slice.start, m.templated_slice.end, m.working_line_no, m.working_line_pos)
+}
+fn g_omarker(m: Option<&PositionMarker>) -> String {
+    match m {
+        Some(m) => format!("(Some {})", g_marker(m)),
+        None => "None".into(),
+    }
+}
+fn g_ptree(t: &ErasedSegment) -> String {
+    if t.segments().is_empty() {
+        // a node without children behaves like a leaf everywhere in position_segments
+        format!("(PLeaf {} {} {})", t.id(), g_str(t.raw()), g_omarker(t.get_position_marker()))
+    } else {
+        format!("(PNode {} {} {})", t.id(), g_omarker(t.get_position_marker()), g_list(t.segments().iter().map(g_ptree)))
+    }
+}
+fn tree_size(t: &ErasedSegment) -> usize {
+    1 + t.segments().iter().map(tree_size).sum::<usize>()
+}
+fn tree_bytes(t: &ErasedSegment) -> usize {
+    t.raw().len()
+}
+fn short_hash(s: &str) -> String {
+    let mut h: u64 = 0xcbf29ce484222325;
+    for b in s.as_bytes() {
+        h ^= *b as u64;
+        h = h.wrapping_mul(0x100000001b3);
+    }
+    format!("{:012x}", h & 0xffff_ffff_ffff)
+}
+
+// ---------------------------------------------------------------- structural checks on a parse tree
+/// Returns (clause, message) of the first failure of each clause.
+fn check_parse_tree(tree: &ErasedSegment, text: &str) -> Vec<(&'static str, String)> {
+    let mut fails: Vec<(&'static str, String)> = vec![];
+    let fail = |fails: &mut Vec<(&'static str, String)>, clause: &'static str, msg: String| {
+        if !fails.iter().any(|(c, _)| *c == clause) {
+            fails.push((clause, msg));
+        }
+    };
+    let leaves = tree.get_raw_segments();
+    // 1. contiguity, 2. text = slice, 4. line/col of leaves
+    let mut cur_t = 0usize;
+    let mut cur_s = 0usize;
+    for (i, l) in leaves.iter().enumerate() {
+        let Some(m) = l.get_position_marker() else {
+            fail(&mut fails, "leaf-has-position", format!("leaf {} {:?} has no position", i, l.raw()));
+            continue;
+        };
+        if m.templated_slice.start != cur_t || m.source_slice.start != cur_s {
+            fail(&mut fails, "leaves-contiguous", format!("leaf {} {:?} starts at templated {} / source {}, previous ended at {} / {}", i, l.raw(), m.templated_slice.start, m.source_slice.start, cur_t, cur_s));
+        }
+        if m.templated_slice.end < m.templated_slice.start || m.source_slice.end < m.source_slice.start {
+            fail(&mut fails, "leaves-contiguous", format!("leaf {} has a reversed slice", i));
+        }
+        cur_t = m.templated_slice.end;
+        cur_s = m.source_slice.end;
+        match text.get(m.templated_slice.clone()) {
+            Some(s) if s == l.raw().as_str() => {}
+            other => fail(&mut fails, "leaf-text-is-slice", format!("leaf {} raw {:?} but slice {:?} is {:?}", i, l.raw(), m.templated_slice, other)),
+        }
+        let lc = linecol(text, m.templated_slice.start);
+        if (m.working_line_no, m.working_line_pos) != lc {
+            fail(&mut fails, "leaf-linecol", format!("leaf {} {:?} working {:?} computed {:?}", i, l.raw(), (m.working_line_no, m.working_line_pos), lc));
+        }
+        if m.source_position() != lc || m.templated_position() != lc {
+            fail(&mut fails, "leaf-linecol", format!("leaf {} {:?} source_position {:?} templated_position {:?} computed {:?}", i, l.raw(), m.source_position(), m.templated_position(), lc));
+        }
+    }
+    if cur_t != text.len() {
+        fail(&mut fails, "leaves-contiguous", format!("last leaf ends at {} but the text has {} bytes", cur_t, text.len()));
+    }
+    // 3. hull, node line/col, 5. brackets, 6. code edges
+    let mut has_unparsable = false;
+    for n in tree.recursive_crawl_all(false) {
+        if n.get_type() == SyntaxKind::Unparsable {
+            has_unparsable = true;
+        }
+        let ch = n.segments();
+        if ch.is_empty() {
+            continue;
+        }
+        let Some(m) = n.get_position_marker() else {
+            fail(&mut fails, "node-has-position", format!("node {:?} has no position", n.get_type()));
+            continue;
+        };
+        let ms: Vec<&PositionMarker> = ch.iter().filter_map(|c| c.get_position_marker()).collect();
+        if ms.len() != ch.len() {
+            continue;
+        }
+        let hs = ms.iter().map(|c| c.source_slice.start).min().unwrap();
+        let he = ms.iter().map(|c| c.source_slice.end).max().unwrap();
+        let ts = ms.iter().map(|c| c.templated_slice.start).min().unwrap();
+        let te = ms.iter().map(|c| c.templated_slice.end).max().unwrap();
+        if m.source_slice != (hs..he) || m.templated_slice != (ts..te) {
+            fail(&mut fails, "node-span-is-hull", format!("node {:?} spans {:?}/{:?}, hull of children is {:?}/{:?}", n.get_type(), m.source_slice, m.templated_slice, hs..he, ts..te));
+        }
+        // children tile => hull = first start .. last end
+        if ts != ms[0].templated_slice.start || te != ms[ms.len() - 1].templated_slice.end {
+            fail(&mut fails, "node-span-is-hull", format!("node {:?}: hull {:?} is not first child start .. last child end", n.get_type(), ts..te));
+        }
+        let lc = linecol(text, m.templated_slice.start);
+        if (m.working_line_no, m.working_line_pos) != lc {
+            fail(&mut fails, "node-linecol", format!("node {:?} working {:?} computed {:?}", n.get_type(), (m.working_line_no, m.working_line_pos), lc));
+        }
+        if n.get_type() == SyntaxKind::Bracketed {
+            let real: Vec<&ErasedSegment> = ch.iter().filter(|c| !c.is_meta()).collect();
+            // the dialects' bracket pairs: ( ) [ ] { } < > and snowflake's {- -}
+            let ok = match (real.first(), real.last()) {
+                (Some(a), Some(b)) if real.len() >= 2 => matches!(
+                    (a.get_type(), b.get_type()),
+                    (SyntaxKind::StartBracket, SyntaxKind::EndBracket)
+                        | (SyntaxKind::StartSquareBracket, SyntaxKind::EndSquareBracket)
+                        | (SyntaxKind::StartCurlyBracket, SyntaxKind::EndCurlyBracket)
+                        | (SyntaxKind::StartAngleBracket, SyntaxKind::EndAngleBracket)
+                        | (SyntaxKind::StartExcludeBracket, SyntaxKind::EndExcludeBracket)
+                ) && a.segments().is_empty() && b.segments().is_empty(),
+                _ => false,
+            };
+            if !ok {
+                fail(&mut fails, "brackets-match", format!("bracketed node {:?} does not start and end with matching brackets", trunc(n.raw(), 80)));
+            }
+        }
+        if n.get_type() != SyntaxKind::File {
+            let real: Vec<&ErasedSegment> = ch.iter().filter(|c| !c.is_meta()).collect();
+            let ok = match (real.first(), real.last()) {
+                (Some(a), Some(b)) => a.is_code() && b.is_code(),
+                _ => true, // only metas
+            };
+            if !ok {
+                fail(&mut fails, "nodes-start-end-with-code", format!("node {:?} {:?} starts or ends with non-code", n.get_type(), trunc(n.raw(), 80)));
+            }
+        }
+    }
+    // 7. indent balance on fully parsed files
+    if !has_unparsable {
+        let sum: i32 = leaves.iter().map(|l| l.indent_val() as i32).sum();
+        if sum != 0 {
+            fail(&mut fails, "indent-balance", format!("indent/dedent markers sum to {}", sum));
+        }
+    }
+    fails
+}
+
+/// After fixes: working line/col of every leaf equals the value computed from the rewritten text.
+fn check_working_positions(tree: &ErasedSegment) -> Option<String> {
+    let text: String = tree.raw().to_string();
+    let leaves = tree.get_raw_segments();
+    let mut off = 0usize;
+    for (i, l) in leaves.iter().enumerate() {
+        let Some(m) = l.get_position_marker() else {
+            return Some(format!("leaf {} {:?} has no position", i, l.raw()));
+        };
+        let lc = linecol(&text, off);
+        if (m.working_line_no, m.working_line_pos) != lc {
+            return Some(format!("leaf {} {:?} at byte {} of the rewritten text has working {:?}, computed {:?}", i, l.raw(), off, (m.working_line_no, m.working_line_pos), lc));
+        }
+        off += l.raw().len();
+    }
+    None
+}
+
+// ---------------------------------------------------------------- kernel cases
+fn infer_cases(rng: &mut Rng, out: &mut Buf, raws: &[String]) {
+    for raw in raws {
+        let (l, c) = (rng.range(1, 50), rng.range(1, 120));
+        let r = PositionMarker::infer_next_position(raw, l, c);
+        out.case("infer", "infer-next-position", raw.contains('\n'), g_tuple(&[g_str(raw), g_n(l), g_n(c)]), g_tuple(&[g_n(r.0), g_n(r.1)]), json!({"input": {"kind": "infer", "raw": raw, "line": l, "pos": c}}));
+    }
+}
+
+fn linepos_cases(rng: &mut Rng, out: &mut Buf, text: &str) {
+    let tf: TemplatedFile = text.to_string().into();
+    for _ in 0..6 {
+        let p = rng.below(text.len() + 1);
+        let r = tf.get_line_pos_of_char_pos(p, false);
+        let nontriv = text.as_bytes()[..p].contains(&b'\n');
+        out.case("linepos", "line-pos-of-char-pos", nontriv, g_tuple(&[g_list(nl_offsets(text).iter().map(|x| g_n(*x))), g_n(p)]), g_tuple(&[g_n(r.0), g_n(r.1)]), json!({"input": {"kind": "linepos", "text": trunc(text, 400), "p": p}}));
+        // the model's specification of the oracle itself
+        out.direct("linepos", r == linecol(text, p), &format!("c12-linepos:{}", short_hash(text)), &format!("get_line_pos_of_char_pos({}) = {:?}, computed {:?}", p, r, linecol(text, p)), json!({"kind": "linepos", "text": text, "p": p}));
+    }
+}
+
+fn hull_cases(out: &mut Buf, tree: &ErasedSegment, text: &str, budget: &mut usize) {
+    let nls = g_list(nl_offsets(text).iter().map(|x| g_n(*x)));
+    for n in tree.recursive_crawl_all(false) {
+        if *budget == 0 {
+            return;
+        }
+        let ch = n.segments();
+        if ch.len() < 2 || ch.len() > 40 {
+            continue;
+        }
+        let ms: Vec<&PositionMarker> = ch.iter().filter_map(|c| c.get_position_marker()).collect();
+        if ms.is_empty() {
+            continue;
+        }
+        let Ok(h) = catch(|| PositionMarker::from_child_markers(ms.iter().copied())) else { continue };
+        *budget -= 1;
+        out.case("hull", "from-child-markers", ms.len() >= 3, g_tuple(&[nls.clone(), g_list(ms.iter().map(|m| g_marker(m)))]), format!("(Some {})", g_marker(&h)), json!({"input": {"kind": "hull", "node": format!("{:?}", n.get_type()), "children": ms.len()}}));
+    }
+}
+
+/// mirror of TreePos.Model.{wokb, preb}: the hypothesis of the position_segments theorem
+fn wokb(t: &ErasedSegment, l: usize, c: usize) -> bool {
+    let Some(m) = t.get_position_marker() else { return false };
+    if (m.working_line_no, m.working_line_pos) != (l, c) {
+        return false;
+    }
+    let (mut l, mut c) = (l, c);
+    for ch in t.segments() {
+        if !wokb(ch, l, c) {
+            return false;
+        }
+        (l, c) = PositionMarker::infer_next_position(ch.raw(), l, c);
+    }
+    true
+}
+fn preb(t: &ErasedSegment) -> bool {
+    if t.segments().is_empty() {
+        return true;
+    }
+    match t.get_position_marker() {
+        Some(m) => wokb(t, m.working_line_no, m.working_line_pos),
+        None => t.segments().iter().all(preb),
+    }
+}
+
+/// one recorded / provoked call of position_segments
+fn ps_case(out: &mut Buf, cls: &str, segs: &[ErasedSegment], parent: &PositionMarker, result: &[ErasedSegment], input: Value) {
+    let nls = match parent.templated_file.templated_str.as_deref() {
+        Some(t) => nl_offsets(t),
+        None => nl_offsets(&parent.templated_file.source_str),
+    };
+    let moved = segs.iter().zip(result.iter()).any(|(a, b)| a.get_position_marker().map(|m| m.working_loc()) != b.get_position_marker().map(|m| m.working_loc()));
+    let args = g_tuple(&[g_list(nls.iter().map(|x| g_n(*x))), g_list(segs.iter().map(g_ptree)), g_marker(parent)]);
+    let pre = segs.iter().all(preb);
+    let exp = g_tuple(&[g_bool(pre), format!("(Some {})", g_list(result.iter().map(g_ptree)))]);
+    out.case("ps", cls, moved, args, exp, input);
+}
+
+// ---------------------------------------------------------------- items
+enum Item {
+    Parse(c02::Item),
+    Fix { cls: &'static str, dialect: String, rules: String, sql: String },
+    Kernels { seed: u64 },
+}
+
+struct Cx {
+    c02: c02::Ctx,
+    linters: std::collections::HashMap<(String, String), Linter>,
+}
+
+fn meta_case(out: &mut Buf, cls: &str, p: &c02::Parsed, tree: &ErasedSegment, text: &str, input: &Value) {
+    let Some(root) = &p.root else { return };
+    let tokens = &p.tokens;
+    if tokens.len() > 120 {
+        return;
+    }
+    let tok_ids: std::collections::HashSet<u32> = tokens.iter().map(|t| t.id()).collect();
+    let metas: Vec<ErasedSegment> = tree.get_raw_segments().into_iter().filter(|l| !tok_ids.contains(&l.id())).collect();
+    if metas.is_empty() {
+        return;
+    }
+    if tokens.iter().any(|t| t.get_position_marker().is_none()) || metas.iter().any(|t| t.get_position_marker().is_none()) {
+        return;
+    }
+    let nls = g_list(nl_offsets(text).iter().map(|x| g_n(*x)));
+    let toks = g_list(tokens.iter().map(|t| g_tuple(&[c02::g_tok(t), g_marker(t.get_position_marker().unwrap())])));
+    let args = g_tuple(&[nls, toks, c02::g_mr(&root.match_result)]);
+    let exp = format!("(Some {})", g_list(metas.iter().map(|m| g_tuple(&[g_n(c02::kind_n(m.get_type())), g_marker(m.get_position_marker().unwrap())]))));
+    out.case("metapos", cls, metas.len() >= 2, args, exp, json!({"input": input, "metas": metas.len()}));
+}
+
+fn run_parse(cx: &mut Cx, it: &c02::Item, out: &mut Buf) {
+    let input = json!({"kind": "parse", "dialect": it.dialect, "sql": it.sql});
+    let cfg = cx.c02.cfg(&it.dialect);
+    let tables = Tables::default();
+    out.count("parse_inputs", 1);
+    let Ok(p) = c02::lex_and_parse(cfg, &tables, &it.sql) else {
+        out.count("lexer_failed", 1);
+        return;
+    };
+    let Ok(Some(tree)) = &p.result else {
+        out.count("no_tree", 1);
+        return;
+    };
+    // the text the positions refer to is the token text (lexer losslessness is C01)
+    let text: String = p.tokens.iter().map(|t| t.raw().as_str()).collect();
+    if text != it.sql {
+        out.count("token_text_differs_from_input", 1);
+        // token slices then refer to the input, not to the token text: outside C12's premise
+        return;
+    }
+    let fails = check_parse_tree(tree, &text);
+    let key_base = format!("{}:{}", it.dialect, short_hash(&it.sql));
+    if fails.is_empty() {
+        out.direct(it.cls, true, "", "", Value::Null);
+    }
+    for (clause, msg) in &fails {
+        out.direct(it.cls, false, &format!("c12-{}:{}", clause, key_base), &format!("{}: {}", clause, msg), input.clone());
+    }
+    for clause in ["leaves-contiguous", "leaf-text-is-slice", "leaf-linecol", "node-span-is-hull", "node-linecol", "brackets-match", "nodes-start-end-with-code", "indent-balance"] {
+        let class = if matches!(clause, "brackets-match" | "nodes-start-end-with-code" | "indent-balance") { "blocking" } else { "blocking" };
+        out.hyp(&format!("clause_{}", clause), class, !fails.iter().any(|(c, _)| *c == clause), json!({"input": input}));
+    }
+    if it.sql.contains('\n') && !it.sql.is_ascii() {
+        out.count("parse_inputs_multiline_non_ascii", 1);
+    }
+    let mut budget = 1usize;
+    if tree_size(tree) <= 400 {
+        hull_cases(out, tree, &text, &mut budget);
+        if short_hash(&it.sql).as_bytes()[11] % 2 == 0 {
+            meta_case(out, it.cls, &p, tree, &text, &input);
+        }
+    }
+}
+
+fn run_fix(cx: &mut Cx, cls: &'static str, dialect: &str, rules: &str, sql: &str, out: &mut Buf) {
+    let input = json!({"kind": "fix", "dialect": dialect, "rules": rules, "sql": sql});
+    out.count("fix_inputs", 1);
+    let linter = cx.linters.entry((dialect.to_string(), rules.to_string())).or_insert_with(|| {
+        let src = format!("[sqruff]\ndialect = {}\nrules = {}\n", dialect, rules);
+        Linter::new(FluffConfig::from_source(&src, None), None, None, true)
+    });
+    // every tree the fix loop rebuilds
+    let trees: Rc<RefCell<Vec<(String, bool, ErasedSegment)>>> = Rc::new(RefCell::new(vec![]));
+    let calls: Rc<RefCell<Vec<(Vec<ErasedSegment>, PositionMarker, Vec<ErasedSegment>)>>> = Rc::new(RefCell::new(vec![]));
+    {
+        let trees = trees.clone();
+        fix_hook::FIX_HOOK.with(|h| {
+            *h.borrow_mut() = Some(Box::new(move |ev| match ev {
+                fix_hook::FixEvent::Batch { rule, after, accepted, .. } => trees.borrow_mut().push((rule.to_string(), accepted, after.clone())),
+                fix_hook::FixEvent::End { tree } => trees.borrow_mut().push(("<end>".to_string(), true, tree.clone())),
+                _ => {}
+            }))
+        });
+        let calls = calls.clone();
+        pos_hook::POS_HOOK.with(|h| {
+            *h.borrow_mut() = Some(Box::new(move |segs, parent, result| {
+                let mut c = calls.borrow_mut();
+                if c.len() < 4000 {
+                    c.push((segs.to_vec(), parent.clone(), result.to_vec()));
+                }
+            }))
+        });
+    }
+    let r = catch(|| linter.lint_string(sql, None, true));
+    fix_hook::FIX_HOOK.with(|h| *h.borrow_mut() = None);
+    pos_hook::POS_HOOK.with(|h| *h.borrow_mut() = None);
+    if r.is_err() {
+        out.count("fix_panics", 1); // C03's business
+        return;
+    }
+    let trees = trees.borrow();
+    let key_base = format!("{}:{}:{}", dialect, rules, short_hash(sql));
+    let mut n_batches = 0;
+    for (rule, accepted, tree) in trees.iter() {
+        if rule != "<end>" {
+            n_batches += 1;
+        }
+        let why = check_working_positions(tree);
+        let c = if rule == "<end>" {
+            "fix-final-tree"
+        } else if *accepted {
+            "fix-batch-accepted"
+        } else {
+            "fix-batch-rejected"
+        };
+        out.direct(c, why.is_none(), &format!("c12-postfix:{}:{}", rule, key_base), &format!("after {}: {}", rule, why.clone().unwrap_or_default()), input.clone());
+        out.hyp("clause_postfix_working_positions", "blocking", why.is_none(), json!({"input": input, "rule": rule}));
+        // diagnostic: the cached leaf list of the root agrees with the leaves of the tree
+        let cached: Vec<(usize, usize)> = tree.raw_segments_with_ancestors().iter().filter_map(|(l, _)| l.get_position_marker().map(|m| m.working_loc())).collect();
+        let actual: Vec<(usize, usize)> = tree.get_raw_segments().iter().filter_map(|l| l.get_position_marker().map(|m| m.working_loc())).collect();
+        out.hyp("diag_cached_leaf_list_positions_fresh", "diagnostic", cached == actual, json!({"input": input, "rule": rule}));
+    }
+    out.count("fix_batches", n_batches);
+    if n_batches > 0 {
+        out.count("fix_inputs_with_batches", 1);
+    }
+    // recorded position_segments calls (sampled: small ones, those that moved something first)
+    let calls = calls.borrow();
+    out.count("position_segments_calls_recorded", calls.len());
+    let mut emitted = 0;
+    for (segs, _, _) in calls.iter() {
+        let pre = segs.iter().all(preb);
+        out.hyp("H_edit_pre_position_segments_inputs_consistent_below_kept_markers", "blocking", pre, json!({"input": input, "segs": trunc(&g_list(segs.iter().map(g_ptree)), 1500)}));
+    }
+    for (k, (segs, parent, result)) in calls.iter().enumerate() {
+        let size: usize = segs.iter().map(tree_size).sum();
+        let bytes: usize = segs.iter().map(tree_bytes).sum();
+        if size > 60 || bytes > 400 || segs.is_empty() {
+            continue;
+        }
+        let has_new = segs.iter().any(|s| s.get_position_marker().is_none());
+        if !(has_new || k % 7 == 0) {
+            continue;
+        }
+        if emitted >= 2 {
+            break;
+        }
+        emitted += 1;
+        ps_case(out, cls, segs, parent, result, json!({"input": input, "call": k}));
+    }
+}
+
+/// position_segments on perturbed real trees + the small kernels on random data
+fn run_kernels(cx: &mut Cx, seed: u64, out: &mut Buf) {
+    let mut rng = Rng::new(seed);
+    const SQLS: &[&str] = &[
+        "SELECT a, b FROM t WHERE c = 1\n",
+        "SELECT\n    a,\n    b\nFROM t\n",
+        "SELECT 'multi\nline', x -- c\nFROM (SELECT 1) AS s\n",
+        "/* block\ncomment */ SELECT 'é' AS ü\nFROM t;\n",
+        "INSERT INTO t (a, b) VALUES (1, 'x'), (2, 'y');\n",
+    ];
+    let sql = SQLS[rng.below(SQLS.len())];
+    let cfg = cx.c02.cfg("ansi");
+    let tables = Tables::default();
+    let Ok(p) = c02::lex_and_parse(cfg, &tables, sql) else { return };
+    let Ok(Some(tree)) = &p.result else { return };
+    // kernels on real raws
+    let mut raws: Vec<String> = p.tokens.iter().map(|t| t.raw().to_string()).collect();
+    raws.push(String::new());
+    raws.push("\n".into());
+    raws.push("a\n\nb".into());
+    raws.push("\n\n".into());
+    raws.push("é\nü".into());
+    raws.push(sql.to_string());
+    for _ in 0..6 {
+        let n = rng.below(12);
+        raws.push((0..n).map(|_| *rng.pick(&['a', '\n', ' ', 'é', '\t', '\r'])).collect());
+    }
+    rng.shuffle(&mut raws);
+    raws.truncate(10);
+    infer_cases(&mut rng, out, &raws);
+    linepos_cases(&mut rng, out, sql);
+    // perturb the children of a random node: replace / insert / delete leaves, drop positions
+    let nodes: Vec<ErasedSegment> = tree.recursive_crawl_all(false).into_iter().filter(|n| n.segments().len() >= 2 && tree_size(n) <= 40).collect();
+    if nodes.is_empty() {
+        return;
+    }
+    for _ in 0..3 {
+        let node = &nodes[rng.below(nodes.len())];
+        let mut segs: Vec<ErasedSegment> = node.segments().to_vec();
+        let nops = rng.range(1, 3);
+        for _ in 0..nops {
+            if segs.is_empty() {
+                break;
+            }
+            let i = rng.below(segs.len());
+            match rng.below(4) {
+                0 => {
+                    // new segment without position (as a fix edit would create)
+                    let raw = *rng.pick(&[" ", "\n", "x", "  \n  ", "é", ""]);
+                    segs.insert(i, SegmentBuilder::token(tables.next_id(), raw, SyntaxKind::Whitespace).finish());
+                }
+                1 => {
+                    segs.remove(i);
+                }
+                2 => {
+                    // replace a leaf by one with another raw, keeping the old marker (Replace with consumed_pos)
+                    if segs[i].segments().is_empty() {
+                        let raw = *rng.pick(&["yy", "\n", "zzzz\nq", ""]);
+                        let mut b = SegmentBuilder::token(tables.next_id(), raw, segs[i].get_type());
+                        if let Some(m) = segs[i].get_position_marker() {
+                            b = b.with_position(m.clone());
+                        }
+                        segs[i] = b.finish();
+                    }
+                }
+                _ => {
+                    // a new node without position whose children are new leaves
+                    let kids = vec![SegmentBuilder::token(tables.next_id(), "k", SyntaxKind::Keyword).finish(), SegmentBuilder::token(tables.next_id(), "\n", SyntaxKind::Newline).finish()];
+                    segs.insert(i, SegmentBuilder::node(tables.next_id(), SyntaxKind::Expression, cfg.get_dialect().name, kids).finish());
+                }
+            }
+        }
+        if segs.is_empty() {
+            continue;
+        }
+        let parent = node.get_position_marker().unwrap().clone();
+        let input = json!({"kind": "kernels", "seed": seed});
+        match catch(|| position_segments(&segs, &parent)) {
+            Ok(result) => {
+                ps_case(out, "perturbed-children", &segs, &parent, &result, json!({"input": input}));
+                // the theorem's conclusion observed on the real result
+                let mut line = parent.working_line_no;
+                let mut pos = parent.working_line_pos;
+                let mut ok = true;
+                for s in &result {
+                    for l in s.get_raw_segments() {
+                        let m = l.get_position_marker().unwrap();
+                        if (m.working_line_no, m.working_line_pos) != (line, pos) {
+                            ok = false;
+                        }
+                        (line, pos) = PositionMarker::infer_next_position(l.raw(), line, pos);
+                    }
+                }
+                out.direct("perturbed-children", ok, &format!("c12-position-segments:{}", seed), "position_segments left a leaf at a stale working position", input);
+            }
+            Err(_) => {
+                let args = g_tuple(&[g_list(nl_offsets(sql).iter().map(|x| g_n(*x))), g_list(segs.iter().map(g_ptree)), g_marker(&parent)]);
+                let pre = segs.iter().all(preb);
+                out.case("ps", "perturbed-children-panic", false, args, g_tuple(&[g_bool(pre), "None".into()]), json!({"input": input}));
+            }
+        }
+    }
+}
+
+fn run_one(cx: &mut Cx, it: &Item, out: &mut Buf) {
+    match it {
+        Item::Parse(p) => run_parse(cx, p, out),
+        Item::Fix { cls, dialect, rules, sql } => run_fix(cx, cls, dialect, rules, sql, out),
+        Item::Kernels { seed } => run_kernels(cx, *seed, out),
+    }
+}
+
+const RULESETS: &[&str] = &["all", "core", "LT01", "LT02", "LT01,LT02,LT03,LT04,LT05", "CP01,CP02,CP03", "AL01,AL02,AL05", "LT09,LT10,LT12", "ST01,ST02", "CV01,CV02,CV03,CV04,CV05", "RF01,RF02,RF03", "AM01,AM02,AM06", "CV06,CV10,CV11", "LT06,LT07,LT08,LT13"];
+
+const EXTRA_SQL: &[&str] = &[
+    "select a,b from t where x=1\n",
+    "SELECT a  ,  b FROM t ; \n",
+    "select\n a,\n   b\n  from t\nwhere a in (1,2,\n3)\n",
+    "SELECT 'multi\nline' , b from t -- trailing   \n",
+    "/* é */ select 'ü'  as x,y  from  t\n",
+    "select a from t\n\n\n\n",
+    "select case when a then b else c end from t inner join u on t.a=u.a\n",
+    "SELECT a FROM t WHERE a IN (SELECT b FROM u WHERE c=1)\n",
+];
+
+pub fn main(args: &Args) {
+    if std::env::var("SQV_LOUD").is_err() {
+        silence_panics();
+    }
+    let mut out = Out::new(&args.out);
+    let mut rng = Rng::new(args.seed);
+    let mut items: Vec<Item> = vec![];
+    if let Some(path) = args.flag("--replay-input") {
+        let v: Value = serde_json::from_str(&std::fs::read_to_string(path).unwrap()).unwrap();
+        let v = if v.get("input").is_some() { v["input"].clone() } else { v };
+        let v = if v.get("input").is_some() { v["input"].clone() } else { v };
+        match v["kind"].as_str().unwrap_or("parse") {
+            "fix" => items.push(Item::Fix { cls: "replay", dialect: v["dialect"].as_str().unwrap_or("ansi").into(), rules: v["rules"].as_str().unwrap_or("all").into(), sql: v["sql"].as_str().unwrap_or("").into() }),
+            "kernels" => items.push(Item::Kernels { seed: v["seed"].as_u64().unwrap_or(1) }),
+            _ => items.push(Item::Parse(c02::Item { cls: "replay", dialect: v["dialect"].as_str().unwrap_or("ansi").into(), sql: v["sql"].as_str().unwrap_or("").into() })),
+        }
+    } else {
+        let thorough = args.thorough();
+        for it in c02::corpus_items(&mut rng, thorough, 300, if thorough { 6000 } else { 400 }) {
+            items.push(Item::Parse(it));
+        }
+        // post-fix clause: rule fixtures and corpus samples x rule selections
+        let snippets = rule_snippets();
+        for (i, (_, s)) in snippets.iter().enumerate() {
+            if thorough {
+                for r in RULESETS {
+                    items.push(Item::Fix { cls: "rule-snippet", dialect: "ansi".into(), rules: r.to_string(), sql: s.clone() });
+                }
+            } else {
+                let r = if i % 2 == 0 { "all" } else { RULESETS[rng.below(RULESETS.len())] };
+                items.push(Item::Fix { cls: "rule-snippet", dialect: "ansi".into(), rules: r.to_string(), sql: s.clone() });
+            }
+        }
+        for s in EXTRA_SQL {
+            for r in RULESETS {
+                items.push(Item::Fix { cls: "multi-line-non-ascii", dialect: "ansi".into(), rules: r.to_string(), sql: s.to_string() });
+            }
+        }
+        let files = corpus();
+        let small: Vec<&CorpusFile> = files.iter().filter(|f| f.text.len() <= 1200).collect();
+        for _ in 0..(if thorough { 1500 } else { 150 }) {
+            let f = small[rng.below(small.len())];
+            let r = if rng.chance(1, 2) { "all" } else { RULESETS[rng.below(RULESETS.len())] };
+            items.push(Item::Fix { cls: "corpus", dialect: f.dialect.clone(), rules: r.to_string(), sql: f.text.clone() });
+        }
+        for k in 0..(if thorough { 3000 } else { 300 }) {
+            items.push(Item::Kernels { seed: args.seed.wrapping_mul(1000003).wrapping_add(k) });
+        }
+    }
+    par_run(&mut out, &items, || Cx { c02: c02::Ctx::new(), linters: Default::default() }, run_one);
+    out.finish();
 }
